@@ -1229,9 +1229,11 @@ fn search_progress<C: CvE<Bf>>(sub: &mut Sub, cfg: &Config, idx: u64) {
 
 const STEP_COUNTS: [u16; 10] = [0, 1, 3, 7, 15, 1000, 2001, 32767, 65534, 65535];
 
-fn length_f64<C: CvE<f64>>(sub: &mut Sub, cfg: &Config, idx: u64) {
+macro_rules! length_impl {
+    ($fname:ident, $F:ty, $tname:expr, $relmin:expr) => {
+fn $fname<C: CvE<$F>>(sub: &mut Sub, cfg: &Config, idx: u64) {
     let api = format!("{}::length_by_discretization", C::NAME);
-    let mut rng = Rng::for_case(&format!("length_f64/{}", C::NAME), cfg.case_seed(), idx);
+    let mut rng = Rng::for_case(&format!("{}/{}", stringify!($fname), C::NAME), cfg.case_seed(), idx);
     let (deg, dim) = (C::DEG, C::DIM);
     let sel = rng.below(10);
     let pts: Vec<Vec<f64>> = if sel == 0 {
@@ -1246,15 +1248,19 @@ fn length_f64<C: CvE<f64>>(sub: &mut Sub, cfg: &Config, idx: u64) {
     } else {
         (0..=deg).map(|_| (0..dim).map(|_| rng.f64_in(-10.0, 10.0)).collect()).collect()
     };
-    let c = C::build(&mut |k, d| pts[k][d]);
+    // the coordinates the curve really holds (rounded to the element type)
+    let pts: Vec<Vec<f64>> = pts.iter().map(|p| p.iter().map(|x| (*x as $F) as f64).collect()).collect();
+    let c = C::build(&mut |k, d| pts[k][d] as $F);
     let chord = dist2(&pts[0], &pts[deg]).sqrt();
     let polygon: f64 = (0..deg).map(|k| dist2(&pts[k], &pts[k + 1]).sqrt()).sum();
     let ctx = format!("control points {:?} (chord {}, control polygon {})", pts, chord, polygon);
-    let rel = 1e-9;
+    // summing s+1 segment lengths in the element type: the recursive sum is off by at most
+    // (s+1)*eps/2 relative to the sum (first-order bound), taken twice here
+    let rel_for = |s: u16| ((s as f64 + 2.0) * <$F>::EPSILON as f64).max($relmin);
     // every evaluated point carries a rounding error of a few eps*scale, so a sum of s+1 segment
     // lengths is off by at most (s+1)*64*eps*scale in absolute terms (matters only near length 0)
     let scale = pts.iter().flatten().fold(1.0f64, |m, x| m.max(x.abs()));
-    let abs_for = |s: u16| (s as f64 + 1.0) * 64.0 * f64::EPSILON * scale;
+    let abs_for = |s: u16| (s as f64 + 1.0) * 64.0 * <$F>::EPSILON as f64 * scale;
     // step counts for which `step_count + 2` does not fit in u16 are classified on their own
     let limit = |s: u16, w: &str| -> String {
         match s {
@@ -1268,11 +1274,11 @@ fn length_f64<C: CvE<f64>>(sub: &mut Sub, cfg: &Config, idx: u64) {
     let mut fails: Vec<Violation> = Vec::new();
     for s in STEP_COUNTS {
         match guarded(|| c.v_length(s)) {
-            Ok(l) => lens.push(Some(l)),
+            Ok(l) => lens.push(Some(l as f64)),
             Err(e) => {
                 lens.push(None);
                 let what = limit(s, "length_panic");
-                fails.push(violation(PROP, sub, &api, "f64", "panic", &what, format!("{}: length_by_discretization({}) panicked: {}", ctx, s, e), cfg.case_seed(), idx));
+                fails.push(violation(PROP, sub, &api, $tname, "panic", &what, format!("{}: length_by_discretization({}) panicked: {}", ctx, s, e), cfg.case_seed(), idx));
             }
         }
     }
@@ -1280,21 +1286,22 @@ fn length_f64<C: CvE<f64>>(sub: &mut Sub, cfg: &Config, idx: u64) {
         let Some(l) = lens[i] else { continue };
         let tag = |w: &str| limit(*s, w);
         let abs = abs_for(*s);
+        let rel = rel_for(*s);
         if !(l >= chord * (1.0 - rel) - abs) {
-            fails.push(violation(PROP, sub, &api, "f64", "wrong_value", &tag("shorter_than_chord"), format!("{}: length_by_discretization({}) = {} is below the chord", ctx, s, l), cfg.case_seed(), idx));
+            fails.push(violation(PROP, sub, &api, $tname, "wrong_value", &tag("shorter_than_chord"), format!("{}: length_by_discretization({}) = {} is below the chord", ctx, s, l), cfg.case_seed(), idx));
         } else if !(l <= polygon * (1.0 + rel) + abs) {
-            fails.push(violation(PROP, sub, &api, "f64", "wrong_value", &tag("longer_than_control_polygon"), format!("{}: length_by_discretization({}) = {} exceeds the control polygon", ctx, s, l), cfg.case_seed(), idx));
+            fails.push(violation(PROP, sub, &api, $tname, "wrong_value", &tag("longer_than_control_polygon"), format!("{}: length_by_discretization({}) = {} exceeds the control polygon", ctx, s, l), cfg.case_seed(), idx));
         }
         // refinement by doubling the number of segments: s -> 2s+1
         if let Some(j) = STEP_COUNTS.iter().position(|x| *x as u32 == 2 * (*s as u32) + 1) {
             if let Some(l2) = lens[j] {
-                if !(l2 >= l * (1.0 - rel) - abs_for(STEP_COUNTS[j])) {
+                if !(l2 >= l * (1.0 - rel_for(STEP_COUNTS[j])) - abs_for(STEP_COUNTS[j])) {
                     let what = limit(STEP_COUNTS[j], "decreases_under_doubling");
                     fails.push(violation(
                         PROP,
                         sub,
                         &api,
-                        "f64",
+                        $tname,
                         "wrong_value",
                         &what,
                         format!("{}: length_by_discretization({}) = {} but with twice the segments length_by_discretization({}) = {}", ctx, s, l, STEP_COUNTS[j], l2),
@@ -1308,15 +1315,19 @@ fn length_f64<C: CvE<f64>>(sub: &mut Sub, cfg: &Config, idx: u64) {
     // one violation per signature is enough for one case
     fails.dedup_by(|a, b| a.sig == b.sig);
     let mut h = H64::new();
-    h.s(C::NAME);
+    h.s(C::NAME).s($tname);
     for x in pts.iter().flatten() {
         h.f(*x);
     }
     if fails.is_empty() {
-        sub.sample(|| format!("{} [f64]: {} -> lengths at step counts {:?} = {:?}", api, ctx, STEP_COUNTS, lens));
+        sub.sample(|| format!("{} [{}]: {} -> lengths at step counts {:?} = {:?}", api, $tname, ctx, STEP_COUNTS, lens));
     }
     conclude(sub, h.get(), polygon > chord * (1.0 + 1e-6), fails);
 }
+    };
+}
+length_impl!(length_f64, f64, "f64", 1e-9);
+length_impl!(length_f32, f32, "f32", 1e-6);
 
 // ------------------------------------------------------------------ main
 
@@ -1479,6 +1490,20 @@ fn main() {
             &req_len,
         );
         let s = run_cases(&cfg, proto, nl, |s, i| four!(length_f64, f64, s, i));
+        rep.push(s);
+    }
+    {
+        // the same bounds in f32 (added after seeded change C15_N): the tolerance is the first-order bound of
+        // summing s+1 segment lengths in the element type, (s+2)*eps relative
+        let proto = req(
+            Sub::new(
+                "length_f32",
+                "f32: the curves and step counts of length_f64 with coordinates rounded to f32: chord <= L <= control polygon and L(2s+1) >= L(s), each within (s+2)*eps_f32 relative (bound of the recursive summation) + (s+1)*64*eps*scale absolute; one case per (curve type, curve); non-trivial = control polygon longer than the chord",
+            )
+            .with_floor(nl * 2),
+            &req_len,
+        );
+        let s = run_cases(&cfg, proto, nl, |s, i| four!(length_f32, f32, s, i));
         rep.push(s);
     }
     std::process::exit(rep.finish());
